@@ -4,7 +4,7 @@ E1 kernel: the real DocSync.ByKey.__call__ / DocSync.update on plain nested dict
 E4 (real file system, per-path scratch tree in /dev/shm): Job.sync / Project.sync with file-backed documents and conflicting files.
 """
 import os, re, shutil
-from vflib.hutil import pick, reached, part_ok, kf_filter, spy, tier, fresh_path, nt, ci, cb
+from vflib.hutil import pick, reached, part_ok, kf_filter, spy, tier, fresh_path, nt, ci, cb, entered
 
 import signac.sync as SY
 from signac.sync import DocSync, FileSync
@@ -314,10 +314,103 @@ def h_doc_rollback(entry: int, dstate: int, pstate: int, didx: int):
     assert not problems
 
 
+# ------------------------------------------------------------------------------------------------ E1 on E4: symbolic modification times
+class _PathProxy:
+    """os.path as seen by signac.sync, with getmtime answering from a table of (possibly symbolic) numbers"""
+
+    def __init__(self, table):
+        self._t = table
+
+    def __getattr__(self, a):
+        return getattr(os.path, a)
+
+    def getmtime(self, p):
+        with nt():
+            key = os.path.realpath(p)
+            hit = key in self._t
+        if hit:
+            entered("stub:getmtime")
+            return self._t[key]
+        return os.path.getmtime(p)
+
+
+class _OsProxy:
+    def __init__(self, table):
+        self.path = _PathProxy(table)
+
+    def __getattr__(self, a):
+        return getattr(os, a)
+
+
+def h_mtime_sym(ms: int, md: int, entry: int, nested: bool):
+    """FileSync.update on a file that differs on both sides, with ARBITRARY integer modification times (the two getmtime answers are
+    symbolic; the comparison inside the real strategy is decided by the solver): overwritten iff the source is strictly newer."""
+    assert ms >= 0 and md >= 0 and 0 <= entry <= 1
+    fresh_path()
+    entry, nested = ci(entry, 0, 1), cb(nested)
+    with nt():
+        sc = SL.Scratch().__enter__()
+        src, dst = SL.build(sc.root, 15, 0 if nested else 4, 4 if nested else 0, 1, 0, 0)
+        rel = "sub/g" if nested else "f"
+        sj, dj = src.open_job(SL.SPS[0]), dst.open_job(SL.SPS[0])
+        table = {os.path.realpath(sj.fn(rel)): ms, os.path.realpath(dj.fn(rel)): md}
+        before_dst = open(dj.fn(rel), "rb").read()
+        src_bytes = open(sj.fn(rel), "rb").read()
+        bs = SL.snap(src.path)
+        real_os = SY.os
+        SY.os = _OsProxy(table)
+    try:
+        if entry == 0:
+            dst.sync(src, strategy=FileSync.update, recursive=True, check_schema=False)
+        else:
+            dj.sync(sj, strategy=FileSync.update, recursive=True)
+        raised = False
+    except Exception:  # noqa
+        raised = True
+    finally:
+        with nt():
+            SY.os = real_os
+    with nt():
+        after = open(dj.fn(rel), "rb").read()
+        src_same = SL.snap(src.path) == bs
+        sc.__exit__(None, None, None)
+    reached()
+    assert not raised
+    assert src_same
+    if ms > md:
+        assert after == src_bytes
+    else:
+        assert after == before_dst
+
+
+def h_mtime_sym__reach(ms: int, md: int, entry: int, nested: bool):
+    assert ms >= 0 and md >= 0 and 0 <= entry <= 1
+    fresh_path()
+    entry, nested = ci(entry, 0, 1), cb(nested)
+    with nt():
+        sc = SL.Scratch().__enter__()
+        src, dst = SL.build(sc.root, 15, 4, 0, 1, 0, 0)
+        sj, dj = src.open_job(SL.SPS[0]), dst.open_job(SL.SPS[0])
+        table = {os.path.realpath(sj.fn("f")): ms, os.path.realpath(dj.fn("f")): md}
+        src_bytes = open(sj.fn("f"), "rb").read()
+        real_os = SY.os
+        SY.os = _OsProxy(table)
+    try:
+        dj.sync(sj, strategy=FileSync.update, recursive=True)
+    finally:
+        with nt():
+            SY.os = real_os
+    with nt():
+        after = open(dj.fn("f"), "rb").read()
+        sc.__exit__(None, None, None)
+    assert after != src_bytes   # twin: an overwrite (source newer) is reachable
+
+
 HARNESSES = [
     dict(name="h_file_iff", timeout=(600, 1500), parts=(6, 6), unblock=True),
     dict(name="h_doc_rollback", timeout=(600, 1500), unblock=True),
     dict(name="h_bykey", twin="h_bykey__reach", timeout=(400, 900), parts=(16, 16)),
     dict(name="h_bykey_mixed", timeout=(200, 400)),
     dict(name="h_update", timeout=(200, 400)),
+    dict(name="h_mtime_sym", twin="h_mtime_sym__reach", timeout=(300, 600), unblock=True),
 ]
